@@ -10,9 +10,9 @@ from vf.core import Ctx, require, sut
 from vf.stateful import make_machine, replay_history
 
 META = {
-    "rule": "sub-check 'decode': instances (half of them coordinate-rich: "
-            "bins 5..60, 3..14 items drawn from small palettes of widths "
-            "and heights so that support and blocker situations arise; the "
+    "rule": "sub-check 'decode': instances (6 of 10 coordinate-rich: "
+            "bins 5..60, 3..24 (thorough 40) items drawn from small "
+            "palettes of widths and heights so that support and blocker situations arise; the "
             "others from the 9 size classes incl. storage-type edges) x "
             "shuffled signed permutations x both encodings, destination "
             "pre-filled with garbage: rows and n_bins must equal the "
@@ -186,7 +186,7 @@ def history_op(ex: SharedDecoding) -> Any:
     return st.one_of(decode, decode, decode, decode, fill, poke)
 
 
-Machine = make_machine(SharedDecoding, history_init(12), history_op)
+Machine = make_machine(SharedDecoding, history_init(16), history_op)
 MachineT = make_machine(SharedDecoding, history_init(24), history_op)
 
 SUBS = {"decode": check_decode, "history": replay_history(SharedDecoding)}
@@ -194,8 +194,9 @@ SUBS = {"decode": check_decode, "history": replay_history(SharedDecoding)}
 
 def run(ctx: Ctx) -> None:
     ctx.given("decode",
-              gen_bp.decode_case(rich_share=5, max_items=ctx.pick(14, 40),
+              gen_bp.decode_case(rich_share=6, rich_items=ctx.pick(24, 40),
+                                 max_items=ctx.pick(14, 40),
                                  max_types=ctx.pick(6, 10)),
-              check_decode, quick=1500, thorough=16 * 8000)
+              check_decode, quick=4000, thorough=16 * 8000)
     ctx.state_machine("history", MachineT if ctx.thorough else Machine,
-                      quick=200, thorough=16 * 500, steps=ctx.pick(14, 20))
+                      quick=400, thorough=16 * 500, steps=ctx.pick(14, 20))
